@@ -226,6 +226,12 @@ impl Accept {
                         self.paused = false;
 
                         sockets.iter_mut().for_each(|info| {
+                            // Every listener is registered again here, so a back-off deadline left
+                            // over from an accept error is void. Keeping it would make the next
+                            // `Pause` skip this listener (`deregister_all` treats a deadline as
+                            // "already deregistered") and connections would be accepted while paused.
+                            info.timeout = None;
+
                             self.register_logged(info);
                         });
 
